@@ -9,6 +9,9 @@ use tracing::trace;
 pub(crate) struct MtuDiscovery {
     /// Detected MTU for the path
     current_mtu: u16,
+    /// The peer's `max_udp_payload_size` transport parameter, which bounds the MTU even when MTU
+    /// discovery is disabled
+    peer_max_udp_payload_size: u16,
     /// The state of the MTU discovery, if enabled
     state: Option<EnabledMtuDiscovery>,
     /// The state of the black hole detector
@@ -51,13 +54,14 @@ impl MtuDiscovery {
     fn with_state(current_mtu: u16, min_mtu: u16, state: Option<EnabledMtuDiscovery>) -> Self {
         Self {
             current_mtu,
+            peer_max_udp_payload_size: MAX_UDP_PAYLOAD,
             state,
             black_hole_detector: BlackHoleDetector::new(min_mtu),
         }
     }
 
     pub(super) fn reset(&mut self, current_mtu: u16, min_mtu: u16) {
-        self.current_mtu = current_mtu;
+        self.current_mtu = current_mtu.min(self.peer_max_udp_payload_size);
         if let Some(state) = self.state.take() {
             self.state = Some(EnabledMtuDiscovery::new(state.config));
             self.on_peer_max_udp_payload_size_received(state.peer_max_udp_payload_size);
@@ -81,6 +85,7 @@ impl MtuDiscovery {
     /// been received
     pub(crate) fn on_peer_max_udp_payload_size_received(&mut self, peer_max_udp_payload_size: u16) {
         self.current_mtu = self.current_mtu.min(peer_max_udp_payload_size);
+        self.peer_max_udp_payload_size = peer_max_udp_payload_size;
 
         if let Some(state) = self.state.as_mut() {
             // It is possible for black hole detection to trigger before the connection has been
